@@ -610,6 +610,16 @@ def rule_transparent_delegation(ctx: Ctx) -> None:
     ctx.stats["core_generators"] = n_gen
 
 
+def rule_dependencies(ctx: Ctx) -> None:
+    """Dependency clauses: contracts of the engine core that C01 owns and that this property's mechanism relies on (same rule functions,
+    reported under C02 ids).  C02-8: the engine appends a continuation only to a list it built itself — a process that keeps one outbox list
+    across yields would otherwise have its previous continuation scheduled again and resume early.  C02-9: the engine never withdraws an event
+    itself — the events a process yields or returns (e.g. through `forward`) are delivered."""
+    from .c01 import rule_engine_grows_only_its_own_lists, rule_only_the_model_cancels
+    rule_engine_grows_only_its_own_lists(ctx, "C02-8")
+    rule_only_the_model_cancels(ctx, "C02-9")
+
+
 def run(ctx: Ctx) -> None:
     ctx.guarded(rule_continuation_provenance)
     ctx.guarded(rule_return_discipline)
@@ -618,9 +628,13 @@ def run(ctx: Ctx) -> None:
     ctx.guarded(rule_combinators)
     ctx.guarded(rule_hook_list_ownership)
     ctx.guarded(rule_transparent_delegation)
+    ctx.guarded(rule_dependencies)
 
 
 MUTANTS = [
+    ("continuation-appended-to-processes-own-list", EV, "            result = list(side_effects)\n", "            result = side_effects if isinstance(side_effects, list) else list(side_effects)\n", "C02-8"),
+    ("forward-propagates-cancellation", "happysimulator/core/entity.py", "        return Event(\n            time=self.now,\n            event_type=event_type or event.event_type,\n            target=target,\n            context=event.context,\n        )",
+     "        forwarded = Event(\n            time=self.now,\n            event_type=event_type or event.event_type,\n            target=target,\n            context=event.context,\n        )\n        if event.cancelled:\n            forwarded.cancel()\n        return forwarded", "C02-9"),
     ("callback-process-redriven-with-next", "happysimulator/core/callback_entity.py", "        return self._fn(event)\n", "        result = self._fn(event)\n        if hasattr(result, 'send'):\n            return self._drive(result)\n        return result\n\n    def _drive(self, process):\n        try:\n            while True:\n                yield next(process)\n        except StopIteration as done:\n            return done.value\n", "C02-7"),
     ("forward-shares-hook-list", "happysimulator/core/entity.py", "            target=target,\n            context=event.context,\n        )", "            target=target,\n            context=event.context,\n            on_complete=event.on_complete,\n        )", "C02-6"),
     ("continuation-resumes-immediately", EV, "resume_time = self.time + delay", "resume_time = self.time", "C02-1"),
